@@ -30,6 +30,7 @@ type CallSiteSpec struct {
 	Ordinal int
 	Asserts []Clause
 	Assumes []Clause // none allowed without listing; kept for `label`
+	LineHas string   // `at call f@"text" …`: the call site whose source line contains text (instead of an ordinal)
 	Frame   []Clause // `at call X#N modifies a, b | nothing`: trusted frame of a contract-less callee at this site
 	HasFrame bool
 }
@@ -403,6 +404,55 @@ func (c *Contracts) LoadFile(path, pkg string) error {
 				return fmt.Errorf("%s: bad at-clause", src)
 			}
 			callee, ord := w[2], 1
+			lineHas := ""
+			if i := strings.Index(rl.text, "@\""); i >= 0 && strings.HasPrefix(w[2], strings.SplitN(w[2], "@", 2)[0]) && strings.Contains(w[2], "@\"") {
+				// at call f@"source text" assert|modifies ...   (the text may contain blanks)
+				j := strings.Index(rl.text[i+2:], "\"")
+				if j < 0 {
+					return fmt.Errorf("%s: unterminated @\"...\" in at-clause", src)
+				}
+				lineHas = rl.text[i+2 : i+2+j]
+				callee = strings.SplitN(w[2], "@", 2)[0]
+				ord = -2
+				restText := strings.TrimSpace(rl.text[i+2+j+1:])
+				rw := strings.Fields(restText)
+				if len(rw) < 2 {
+					return fmt.Errorf("%s: bad at-clause", src)
+				}
+				body := strings.TrimSpace(restText[len(rw[0]):])
+				var cs *CallSiteSpec
+				for _, x := range cur.Calls {
+					if x.Callee == callee && x.Ordinal == -2 && x.LineHas == lineHas {
+						cs = x
+					}
+				}
+				if cs == nil {
+					cs = &CallSiteSpec{Callee: callee, Ordinal: -2, LineHas: lineHas}
+					cur.Calls = append(cur.Calls, cs)
+				}
+				switch rw[0] {
+				case "assert":
+					cl, err := parseSpecExpr(body, src)
+					if err != nil {
+						return err
+					}
+					cs.Asserts = append(cs.Asserts, cl)
+				case "modifies":
+					cs.HasFrame = true
+					if body != "nothing" {
+						for _, part := range splitTop(body) {
+							cl, err := parseSpecExpr(part, src)
+							if err != nil {
+								return err
+							}
+							cs.Frame = append(cs.Frame, cl)
+						}
+					}
+				default:
+					return fmt.Errorf("%s: only assert/modifies at call sites", src)
+				}
+				break
+			}
 			if i := strings.LastIndex(callee, "#"); i >= 0 {
 				if callee[i+1:] == "*" {
 					ord = -1 // every call site of that callee (none is fine)
